@@ -14,6 +14,12 @@
 //	                        from the committing StateDB's own view / from what was written
 //	root-content            equal roots with different persistent dumps, or vice versa
 //	snap-differs            the same history on a database with a snapshot tree observes differently
+//	                        (the two databases are driven in lockstep)
+//	snap-layer-read         an account / storage slot read directly from a snapshot layer of the tree
+//	                        (diff layers over the disk layer) differs from the account trie / storage trie
+//	                        at the same root (opened on the database WITHOUT snapshots); includes storage
+//	                        that dangles under an account the trie does not have
+//	snap-verify             snapshot.Tree.Verify(root): the root recomputed from the layers' iterators differs
 //	panic / db-error        unexpected panic, Commit error, memoised database error
 package main
 
@@ -21,7 +27,12 @@ import (
 	"fmt"
 	"math/big"
 	"os"
+	"reflect"
+	"runtime/pprof"
 	"strings"
+	"unsafe"
+
+	"github.com/VictoriaMetrics/fastcache"
 
 	"github.com/kardiachain/go-kardia/kai/kaidb/memorydb"
 	"github.com/kardiachain/go-kardia/kai/state"
@@ -29,6 +40,7 @@ import (
 	"github.com/kardiachain/go-kardia/lib/common"
 	"github.com/kardiachain/go-kardia/lib/crypto"
 	"github.com/kardiachain/go-kardia/lib/log"
+	"github.com/kardiachain/go-kardia/lib/rlp"
 	"github.com/kardiachain/go-kardia/types"
 
 	"verif/harness/internal/gen"
@@ -56,12 +68,12 @@ func wordStr(h common.Hash) string { return new(big.Int).SetBytes(h[:]).String()
 // op is one recorded operation (also the replay unit).
 type op struct {
 	h       int    // handle
-	code    string // CA AB SB BA NO CO SS SU AR SR LG PI AA AS TS TX SN RV FI IR CM CP NW DU
+	code    string // CA AB SB BA NO CO SS SU AR SR LG PI AA AS TS TX SN RV FI IR CM CP NW DU | KP (Cap) LR (layer read): snapshot tree only
 	a, k    int
 	v       int64
 	dump    string // F | N | S.a.k
 	touchRM bool   // an AddBalance(ripemd,0) executed while ripemd existed and was empty
-	capd    int    // CM only, snapshot-tree database only: 1 = then snaps.Cap(root, 0) (flatten into the disk layer), 2 = snaps.Cap(root, 1)
+	pre     string // KP, LR: result computed on the snapshot-tree database (these two do nothing on the plain one)
 }
 
 func (p op) line() string {
@@ -75,9 +87,9 @@ func (p op) line() string {
 		args = fmt.Sprintf(" %d %d %d", p.a, p.k, p.v)
 	case "AS":
 		args = fmt.Sprintf(" %d %d", p.a, p.k)
-	case "AR", "SR", "LG", "RV", "FI", "IR", "CM", "CP":
+	case "AR", "SR", "LG", "RV", "FI", "IR", "CM", "CP", "LR":
 		args = fmt.Sprintf(" %d", p.v)
-	case "PI", "TX", "NW":
+	case "PI", "TX", "NW", "KP":
 		args = fmt.Sprintf(" %d %d", p.a, p.v)
 	}
 	return fmt.Sprintf("%d %s%s %s", p.h, p.code, args, p.dump)
@@ -101,10 +113,95 @@ type env struct {
 	chainTip common.Hash
 	branched bool
 	caps     int
+	// result of the last CM: the committed root, and whether Cap(root, n) may be called on it
+	lastRoot   common.Hash
+	lastCapOK  bool
+	roots      []common.Hash // distinct committed roots, in order
+	rootKnown  map[common.Hash]bool
+	staleReads int
+	// linear-chain bookkeeping (valid while !branched): roots of the diff layers from the one above the disk
+	// layer up to the tip; whether the disk layer still has its generator's abort channel (the first
+	// flattening below `layers` then goes straight to disk, later ones stay in an in-memory accumulator);
+	// the roots whose ORIGINAL layer objects had their inner maps adopted by the live accumulator
+	// (diffLayer.flatten shares them: see famFlattenAliasing); roots that ever got a layer
+	chain      []common.Hash
+	genAlive   bool
+	members    []common.Hash
+	layerRoots map[common.Hash]bool
+	attachSeq  map[int]int         // handle -> sequence number of its attachment
+	proneAt    map[common.Hash]int // root -> sequence number at which its original layer object became subject to that sharing
+	seq        int
+}
+
+// capPlan: what snaps.Cap(tip, n) does to the linear chain: the roots merged into an accumulator (in order), the
+// roots whose original objects become exposed to later merges, and the chain afterwards.
+func (e *env) capPlan(n int) (merged, prone []common.Hash, flush bool, after []common.Hash) {
+	k := len(e.chain) - n // layers below the kept ones
+	if n == 0 {
+		k = len(e.chain)
+	}
+	if k <= 0 {
+		return nil, nil, false, e.chain
+	}
+	below := e.chain[:k]
+	merged = below[1:]
+	if len(merged) > 0 {
+		prone = append(append([]common.Hash{}, e.members...), merged[:len(merged)-1]...)
+	}
+	flush = n == 0 || e.genAlive
+	after = append([]common.Hash{}, e.chain[k:]...)
+	if !flush {
+		after = append([]common.Hash{below[k-1]}, after...)
+	}
+	return
+}
+
+// capSafe: Cap(tip, n) would not expose a layer object that an open StateDB is still attached to.
+func (e *env) capSafe(n int) bool {
+	_, prone, _, _ := e.capPlan(n)
+	for _, r := range prone {
+		for _, at := range e.attach {
+			if at == r {
+				return false
+			}
+		}
+	}
+	return true
+}
+
+func (e *env) capApply(n int) {
+	k := len(e.chain) - n
+	if n == 0 {
+		k = len(e.chain)
+	}
+	if k <= 0 {
+		return // the tip is the disk layer, or the chain is too shallow: Cap changes nothing
+	}
+	merged, prone, flush, after := e.capPlan(n)
+	e.seq++
+	for _, r := range prone {
+		e.proneAt[r] = e.seq
+	}
+	if flush {
+		e.members, e.genAlive = nil, false
+	} else {
+		e.members = append(e.members, merged...)
+	}
+	e.chain = after
+}
+
+// prone: the StateDB handle is attached to a layer object whose maps were shared with an accumulator after it attached.
+func (e *env) prone(h int) bool {
+	at, ok := e.attach[h]
+	if !ok {
+		return false
+	}
+	t, ok := e.proneAt[at]
+	return ok && t > e.attachSeq[h]
 }
 
 func newEnv(withSnaps bool, ua, uk []int) *env {
-	e := &env{mdb: memorydb.New(), hs: map[int]*state.StateDB{}, labels: map[common.Hash]int{}, byLab: map[int]common.Hash{}, ua: ua, uk: uk}
+	e := &env{mdb: memorydb.New(), hs: map[int]*state.StateDB{}, labels: map[common.Hash]int{}, byLab: map[int]common.Hash{}, ua: ua, uk: uk, rootKnown: map[common.Hash]bool{}}
 	e.sdb = state.NewDatabase(e.mdb)
 	e.label(types.EmptyRootHash)
 	if withSnaps {
@@ -119,6 +216,10 @@ func newEnv(withSnaps bool, ua, uk []int) *env {
 	e.hs[0] = st
 	e.attach = map[int]common.Hash{0: types.EmptyRootHash}
 	e.chainTip = types.EmptyRootHash
+	e.genAlive = true
+	e.layerRoots = map[common.Hash]bool{types.EmptyRootHash: true}
+	e.attachSeq = map[int]int{0: 0}
+	e.proneAt = map[common.Hash]int{}
 	return e
 }
 
@@ -326,35 +427,53 @@ func (e *env) exec(p op) (res string, panicked bool) {
 			res = "ERR"
 		} else {
 			res = fmt.Sprintf("r%d", e.label(root))
+			if !e.rootKnown[root] {
+				e.rootKnown[root] = true
+				e.roots = append(e.roots, root)
+			}
+			e.lastRoot, e.lastCapOK = root, false
 			if e.snaps != nil {
 				at, attached := e.attach[p.h]
 				delete(e.attach, p.h) // Commit drops the StateDB's snapshot reference
 				if attached && root != at && e.snaps.Snapshot(root) != nil {
-					if at == e.chainTip {
+					if e.layerRoots[root] {
+						// a root that already had a layer: the tree is keyed by root, its bookkeeping (children by
+						// root) is only meaningful for pairwise distinct roots -- no Cap any more in this case
+						e.branched = true
+					}
+					e.layerRoots[root] = true
+					if at == e.chainTip && !e.branched {
 						e.chainTip = root
+						e.chain = append(e.chain, root)
 					} else {
 						e.branched = true
 					}
 				}
-				if p.capd > 0 && !e.branched && root == e.chainTip && attached {
-					e.snaps.Cap(root, p.capd-1)
-					e.caps++
-					if p.capd == 1 {
-						e.branched = false
-					}
-				}
+				e.lastCapOK = !e.branched && root == e.chainTip && attached
 			}
 		}
+	case "KP":
+		// snaps.Cap(root, layers): flatten everything below the top `layers` diff layers (0: into the disk layer)
+		if e.snaps != nil {
+			if err := e.snaps.Cap(e.byLab[p.a], int(p.v)); err == nil {
+				e.caps++
+			}
+			e.capApply(int(p.v))
+		}
+	case "LR":
 	case "CP":
 		e.hs[int(p.v)] = st.Copy()
 		if at, ok := e.attach[p.h]; ok && e.snaps != nil {
 			e.attach[int(p.v)] = at
+			e.attachSeq[int(p.v)] = e.attachSeq[p.h]
 		}
 	case "NW":
 		n, err := state.New(e.byLab[int(p.v)], e.sdb, e.snaps)
 		if e.snaps != nil {
 			if e.snaps.Snapshot(e.byLab[int(p.v)]) != nil {
 				e.attach[p.a] = e.byLab[int(p.v)]
+				e.seq++
+				e.attachSeq[p.a] = e.seq
 				e.withLayer++
 			} else {
 				e.withoutLayer++
@@ -392,6 +511,11 @@ func (l *lineage) clone() *lineage {
 
 func main() {
 	out.WriteFacts(func() string { return "" })
+	if pf := os.Getenv("C08PROF"); pf != "" {
+		f, _ := os.Create(pf)
+		pprof.StartCPUProfile(f)
+		defer pprof.StopCPUProfile()
+	}
 	log.Root().SetHandler(log.DiscardHandler())
 	for i, c := range codePool {
 		codeLabel[crypto.Keccak256Hash(c)] = i
@@ -424,6 +548,208 @@ type caseRun struct {
 	commits     []int // labels of committed roots
 	sparse      bool
 	prevTouched bool // the handle had been operated on since its last full dump when the current op started
+	// the same history on a database WITH a snapshot tree, driven in lockstep
+	e2         *env
+	snapBroken bool                      // a snap-differs was reported, or the case is done with it: the second database is abandoned for the rest of the case
+	aliasing   bool                      // inside famFlattenAliasing
+	views      map[common.Hash]*rootView // what the tries say at a committed root (database without snapshots)
+}
+
+// rootView: accounts and slots of the universe read from the account trie / storage tries at a root.
+type rootView struct {
+	acc   []*types.StateAccount
+	slots [][]common.Hash
+}
+
+func (cr *caseRun) trieView(root common.Hash) *rootView {
+	if v, ok := cr.views[root]; ok {
+		return v
+	}
+	e := cr.e
+	v := &rootView{}
+	tr, err := e.sdb.OpenTrie(root)
+	if err != nil {
+		cr.o.Fail(cr.step, "db-error", "cannot open the account trie at a committed root")
+		cr.views[root] = nil
+		return nil
+	}
+	for _, ai := range e.ua {
+		a := addrOf(ai)
+		acc, err := tr.GetAccount(a)
+		if err != nil {
+			cr.o.Fail(cr.step, "db-error", "account trie read failed at a committed root")
+		}
+		sl := make([]common.Hash, len(e.uk))
+		if acc != nil {
+			str, err := e.sdb.OpenStorageTrie(root, crypto.Keccak256Hash(a[:]), acc.Root)
+			if err != nil {
+				cr.o.Fail(cr.step, "db-error", "cannot open a storage trie at a committed root")
+			} else {
+				for j, k := range e.uk {
+					val, err := str.GetStorage(a, hashOf(k).Bytes())
+					if err != nil {
+						cr.o.Fail(cr.step, "db-error", "storage trie read failed at a committed root")
+					}
+					sl[j] = common.BytesToHash(val)
+				}
+			}
+		}
+		v.acc = append(v.acc, acc)
+		v.slots = append(v.slots, sl)
+	}
+	cr.views[root] = v
+	return v
+}
+
+// layerRead reads every account and slot of the universe directly from the snapshot layer the tree
+// keeps for root (diffLayer.Account/Storage through the bloom filter and the layer walk, or the disk
+// layer), and compares with the tries at the same root. ok=false: no layer, or a read hit a stale layer.
+func (cr *caseRun) layerRead(root common.Hash) (line string, ok bool) {
+	e2 := cr.e2
+	layer := e2.snaps.Snapshot(root)
+	if layer == nil {
+		return "", false
+	}
+	want := cr.trieView(root)
+	if want == nil {
+		return "", false
+	}
+	var parts []string
+	var bad []string
+	for i, ai := range e2.ua {
+		a := addrOf(ai)
+		ah := crypto.Keccak256Hash(a[:])
+		acc, err := layer.Account(ah)
+		if err != nil {
+			e2.staleReads++
+			return "", false
+		}
+		var sl []string
+		for j, k := range e2.uk {
+			enc, err := layer.Storage(ah, crypto.Keccak256Hash(hashOf(k).Bytes()))
+			if err != nil {
+				e2.staleReads++
+				return "", false
+			}
+			var val common.Hash
+			if len(enc) > 0 {
+				_, content, _, err := rlp.Split(enc)
+				if err != nil {
+					bad = append(bad, fmt.Sprintf("account %d slot %d: undecodable snapshot value %x", ai, k, enc))
+				}
+				val.SetBytes(content)
+			}
+			sl = append(sl, wordStr(val))
+			if val != want.slots[i][j] {
+				bad = append(bad, fmt.Sprintf("account %d slot %d: snapshot layer %s, storage trie %s", ai, k, wordStr(val), wordStr(want.slots[i][j])))
+			}
+		}
+		w := want.acc[i]
+		switch {
+		case acc == nil && w == nil:
+			parts = append(parts, fmt.Sprintf("A%d:-;%s", ai, strings.Join(sl, ".")))
+		case acc == nil || w == nil:
+			bad = append(bad, fmt.Sprintf("account %d: snapshot layer has it = %v, account trie has it = %v", ai, acc != nil, w != nil))
+			parts = append(parts, fmt.Sprintf("A%d:?;%s", ai, strings.Join(sl, ".")))
+		default:
+			ch := common.BytesToHash(acc.CodeHash)
+			if len(acc.CodeHash) == 0 {
+				ch = types.EmptyCodeHash
+			}
+			rt := common.BytesToHash(acc.Root)
+			if len(acc.Root) == 0 {
+				rt = types.EmptyRootHash
+			}
+			cl := "?"
+			if l, ok := codeLabel[ch]; ok {
+				cl = fmt.Sprint(l)
+			}
+			if acc.Nonce != w.Nonce || acc.Balance.Cmp(w.Balance) != 0 || ch != common.BytesToHash(w.CodeHash) || rt != w.Root {
+				bad = append(bad, fmt.Sprintf("account %d: snapshot layer (nonce %d balance %s code %s root %s) != account trie (nonce %d balance %s code %s root %s)",
+					ai, acc.Nonce, acc.Balance, ch.Hex()[:10], rt.Hex()[:10], w.Nonce, w.Balance, common.BytesToHash(w.CodeHash).Hex()[:10], w.Root.Hex()[:10]))
+			}
+			parts = append(parts, fmt.Sprintf("A%d:%d,%s,%s;%s", ai, acc.Nonce, acc.Balance, cl, strings.Join(sl, ".")))
+		}
+	}
+	cr.o.Count("oracle.snap-layer-read-checked")
+	if len(bad) > 0 {
+		cr.o.Fail(cr.step, "snap-layer-read", fmt.Sprintf("root %s: %s", root.Hex()[:10], strings.Join(bad, "; ")))
+	}
+	return strings.Join(parts, " "), true
+}
+
+// layerReads emits an LR operation for root and for the `recent` most recently committed roots, wherever the tree
+// still has a readable layer.
+func (cr *caseRun) layerReads(root common.Hash, recent int) {
+	if cr.e2 == nil || cr.snapBroken {
+		return
+	}
+	rs := cr.e2.roots
+	if len(rs) > recent {
+		rs = rs[len(rs)-recent:]
+	}
+	seen := false
+	for _, r := range rs {
+		if r == root {
+			seen = true
+		}
+	}
+	if !seen {
+		rs = append(append([]common.Hash{}, rs...), root)
+	}
+	for _, r := range rs {
+		if cr.snapBroken {
+			return
+		}
+		if line, ok := cr.layerRead(r); ok {
+			cr.do(op{h: 0, code: "LR", v: int64(cr.e2.label(r)), dump: "N", pre: line})
+		}
+	}
+}
+
+// verifyLayers: Tree.Verify re-computes the state root from the layers' sorted iterators.
+func (cr *caseRun) verifyLayers(root common.Hash) {
+	if cr.e2 == nil || cr.snapBroken || cr.e2.snaps.Snapshot(root) == nil {
+		return
+	}
+	err := cr.e2.snaps.Verify(root)
+	switch {
+	case err == nil:
+		cr.o.Count("oracle.snap-verify-checked")
+	case strings.Contains(err.Error(), "state root hash mismatch"):
+		cr.o.Fail(cr.step, "snap-verify", fmt.Sprintf("root %s: %v", root.Hex()[:10], err))
+	default:
+		cr.o.Count("oracle.snap-verify-skipped")
+	}
+}
+
+// commit = Commit on handle h; on the snapshot-tree database optionally followed by Cap (capd-1 layers
+// kept) when the tree's shape allows it, and by direct reads of the layers.
+func (cr *caseRun) commit(h int, de bool, dump string, capd int) string {
+	v := int64(0)
+	if de {
+		v = 1
+	}
+	res := cr.do(op{h: h, code: "CM", v: v, dump: dump})
+	if cr.e2 == nil || cr.snapBroken || !strings.HasPrefix(res, "r") {
+		return res
+	}
+	e2 := cr.e2
+	root := e2.lastRoot
+	cr.layerReads(root, 0)
+	if capd > 0 && e2.lastCapOK {
+		// (not while an open StateDB is attached to a layer whose maps flatten would share: known finding, exhibited by famFlattenAliasing only)
+		if cr.aliasing || e2.capSafe(capd-1) {
+			cr.do(op{h: h, code: "KP", a: e2.label(root), v: int64(capd - 1), dump: "N", pre: "-"})
+			cr.layerReads(root, 5)
+		} else {
+			cr.o.Count("snap.cap-skipped-open-state-on-mid-layer")
+		}
+	}
+	if cr.r.Chance(1, 6) {
+		cr.verifyLayers(root)
+	}
+	return res
 }
 
 // do executes p on the main environment, records it, and runs the per-op oracles.
@@ -450,9 +776,31 @@ func (cr *caseRun) do(p op) string {
 	if d == "PANIC-IN-GETTER" {
 		cr.o.Fail(cr.step, "panic", "a getter panicked after "+p.code)
 	}
+	if p.code == "KP" || p.code == "LR" {
+		res = p.pre
+	}
 	line := res + "|" + d
 	cr.o.Op(p.line(), line)
 	cr.o.Count("op." + p.code)
+	// the same operation on the database with the snapshot tree
+	if cr.e2 != nil && !cr.snapBroken {
+		res2, _ := cr.e2.exec(p)
+		d2 := ""
+		if p.dump != "N" {
+			d2 = cr.e2.dump(cr.e2.hs[p.h], p.dump)
+		}
+		if p.code == "KP" || p.code == "LR" {
+			res2 = p.pre
+		}
+		if line2 := res2 + "|" + d2; line2 != line {
+			class := "snap-differs"
+			if cr.aliasing && cr.e2.prone(p.h) && slotOnlyDiff(line, line2) {
+				class = "snap-flatten-aliasing"
+			}
+			cr.o.Fail(cr.step, class, fmt.Sprintf("op %q: without snapshot tree [%s], with snapshot tree [%s]", p.line(), line, line2))
+			cr.snapBroken = true
+		}
+	}
 	cr.kinds.WriteString(p.code[:1] + strings.ToLower(p.code[1:2]))
 	cr.ops = append(cr.ops, p)
 	cr.lines = append(cr.lines, line)
@@ -460,7 +808,7 @@ func (cr *caseRun) do(p op) string {
 	cr.prevTouched = cr.touched[p.h]
 	mut := true
 	switch p.code {
-	case "DU", "CP", "NW":
+	case "DU", "CP", "NW", "KP", "LR":
 		mut = false
 	}
 	if mut {
@@ -530,7 +878,7 @@ func (cr *caseRun) do(p op) string {
 			l.rmDiverged = true // the leaked RIPEMD dirty mark has now been consumed by a Finalise
 		}
 		l.rmLeak = false
-	case "DU", "CP", "NW":
+	case "DU", "CP", "NW", "KP", "LR":
 	default:
 		l.ops = append(l.ops, p)
 		l.clean = false
@@ -631,31 +979,22 @@ func runCase(o *out.Out, r *gen.Rand, c int) {
 	pk := r.Perm(4)
 	uk := []int{pk[0], pk[1], pk[2]}
 	cr := &caseRun{o: o, r: r, e: newEnv(false, ua, uk), lin: map[int]*lineage{}, last: map[int]string{}, touched: map[int]bool{}, nextH: 1}
+	cr.e2 = newEnv(true, ua, uk)
+	cr.views = map[common.Hash]*rootView{}
 	cr.lin[0] = &lineage{ok: true, base: types.EmptyRootHash, clean: true, snapDump: map[int]string{}}
 	cr.sparse = r.Chance(1, 2)
 	o.Case(c, fmt.Sprintf("CASE %d A %d %d %d K %d %d %d", c, ua[0], ua[1], ua[2], uk[0], uk[1], uk[2]))
 	o.Count(fmt.Sprintf("mode.sparse%s", b01(cr.sparse)))
 	cr.generate()
-	// ---- replay the identical history on a database with a snapshot tree
-	e2 := newEnv(true, ua, uk)
-	for i, p := range cr.ops {
-		if os.Getenv("C08DEBUG") != "" {
-			fmt.Fprintf(os.Stderr, "snap-replay %s cap=%d\n", p.line(), p.capd)
-		}
-		res, _ := e2.exec(p)
-		d := ""
-		if p.dump != "N" {
-			d = e2.dump(e2.hs[p.h], p.dump)
-		}
-		if line := res + "|" + d; line != cr.lines[i] {
-			o.Fail(i, "snap-differs", fmt.Sprintf("op %q: without snapshot tree [%s], with snapshot tree [%s]", p.line(), cr.lines[i], line))
-			break
-		}
+	e2 := cr.e2
+	if !cr.snapBroken {
+		o.Count("oracle.snap-lockstep-complete")
 	}
-	o.Count("oracle.snap-replayed")
 	o.Dist["snap.reopen-with-layer"] += e2.withLayer
 	o.Dist["snap.reopen-without-layer"] += e2.withoutLayer
 	o.Dist["snap.caps"] += e2.caps
+	o.Dist["snap.layer-read-stale"] += e2.staleReads
+	releaseSnapCache(e2.snaps)
 	for _, st := range cr.e.hs {
 		if st.Error() != nil {
 			o.Fail(cr.step, "db-error", "memoised database error: "+st.Error().Error())
@@ -665,6 +1004,45 @@ func runCase(o *out.Out, r *gen.Rand, c int) {
 	if strings.Contains(k, "Rv") || strings.Contains(k, "Cp") || strings.Contains(k, "Nw") {
 		o.Mark(k + "|" + cr.results.String())
 	}
+}
+
+// releaseSnapCache hands the chunks of the tree's clean cache (fastcache: at least 32 MB of 64 KB chunks, obtained with
+// mmap and never returned by the garbage collector) back to fastcache's free list when a case is over. Purely a
+// resource matter of the harness (one snapshot tree per case, thousands of cases per process): the tree is not used afterwards.
+func releaseSnapCache(t *snapshot.Tree) {
+	defer func() { recover() }()
+	v := reflect.ValueOf(t).Elem().FieldByName("layers")
+	v = reflect.NewAt(v.Type(), unsafe.Pointer(v.UnsafeAddr())).Elem()
+	for _, k := range v.MapKeys() {
+		s := v.MapIndex(k).Elem().Elem()
+		if o := s.FieldByName("origin"); o.IsValid() {
+			s = o.Elem()
+		}
+		if c := s.FieldByName("cache"); c.IsValid() && !c.IsNil() {
+			(*fastcache.Cache)(unsafe.Pointer(c.Pointer())).Reset()
+			return
+		}
+	}
+}
+
+// slotOnlyDiff: two observed lines differ in nothing but GetState/GetCommittedState values.
+func slotOnlyDiff(x, y string) bool {
+	blank := func(l string) string {
+		toks := strings.Fields(l)
+		for i, tok := range toks {
+			c := strings.Index(tok, ":")
+			if c < 0 || !(strings.HasPrefix(tok, "A") || strings.Contains(tok[:c], "|A")) {
+				continue
+			}
+			f := strings.Split(tok, ",")
+			if len(f) > 6 {
+				f[6] = "_"
+			}
+			toks[i] = strings.Join(f, ",")
+		}
+		return strings.Join(toks, " ")
+	}
+	return x != y && blank(x) == blank(y)
 }
 
 // suicidedExists parses a full dump: account id -> (exists, suicided).
@@ -713,7 +1091,10 @@ func (cr *caseRun) spec(a, k int) string {
 }
 
 // commitAndReopen: dump, Commit, dump, re-open at the root, dump; read-back oracles.
-func (cr *caseRun) commitAndReopen(h int, de bool) { cr.commitAndReopenCap(h, de, cr.r.Pick(2, 2, 1)) }
+// capd: 0 = no Cap, n+1 = snaps.Cap(root, n) after the Commit (snapshot-tree database only)
+func (cr *caseRun) commitAndReopen(h int, de bool) {
+	cr.commitAndReopenCap(h, de, cr.r.Pick(4, 3, 2, 1, 1))
+}
 
 func (cr *caseRun) commitAndReopenCap(h int, de bool, capd int) {
 	e := cr.e
@@ -730,11 +1111,7 @@ func (cr *caseRun) commitAndReopenCap(h int, de bool, capd int) {
 		ex, s := persistent(st, ai, e.uk)
 		before[ai] = pers{ex, s, st.HasSuicided(addrOf(ai)), st.Empty(addrOf(ai))}
 	}
-	v := int64(0)
-	if de {
-		v = 1
-	}
-	res := cr.do(op{h: h, code: "CM", v: v, dump: "F", capd: capd})
+	res := cr.commit(h, de, "F", capd)
 	var lab int
 	if n, _ := fmt.Sscanf(res, "r%d", &lab); n != 1 {
 		return
@@ -765,11 +1142,308 @@ func (cr *caseRun) commitAndReopenCap(h int, de bool, capd int) {
 	cr.o.Count("oracle.readback-checked")
 }
 
+// reopenTip: Commit(de) + optional Cap + re-open; returns the new handle (or h when the re-open failed).
+func (cr *caseRun) reopenTip(h int, de bool, capd int) int {
+	cr.commitAndReopenCap(h, de, capd)
+	if nh := cr.nextH - 1; cr.e.hs[nh] != nil && nh != h {
+		return nh
+	}
+	return h
+}
+
+// famLifecycle: a linear chain of blocks, each a few transactions on one focal contract (storage writes and
+// deletions, self-destruct, re-creation in the same or a later transaction/block, reverted transactions),
+// committed with varying Cap depths, so that the contract's history is spread over the disk layer, a
+// flattened accumulator layer and plain diff layers in every combination.
+func (cr *caseRun) famLifecycle(cur int) int {
+	r, e := cr.r, cr.e
+	a := e.ua[r.Intn(3)]
+	b := e.ua[r.Intn(3)]
+	nb := 3 + r.Intn(6)
+	for blk := 0; blk < nb; blk++ {
+		for t := 1 + r.Intn(3); t > 0; t-- {
+			rev := -1
+			if r.Chance(1, 4) {
+				res := cr.do(op{h: cur, code: "SN", dump: "F"})
+				fmt.Sscanf(res, "i%d", &rev)
+			}
+			for i := 1 + r.Intn(3); i > 0; i-- {
+				k := e.uk[r.Intn(3)]
+				switch r.Pick(6, 2, 2, 2, 1, 1, 1) {
+				case 0:
+					cr.do(op{h: cur, code: "SS", a: a, k: k, v: int64(r.Intn(4)), dump: cr.spec(a, k)})
+				case 1:
+					cr.do(op{h: cur, code: "SU", a: a, dump: cr.spec(a, k)})
+				case 2:
+					cr.do(op{h: cur, code: "CA", a: a, dump: cr.spec(a, k)})
+				case 3:
+					cr.do(op{h: cur, code: "AB", a: a, v: int64(r.Intn(4)), dump: cr.spec(a, k)})
+				case 4:
+					cr.do(op{h: cur, code: "NO", a: a, v: int64(r.Intn(3)), dump: cr.spec(a, k)})
+				case 5:
+					cr.do(op{h: cur, code: "CO", a: a, v: int64(r.Intn(4)), dump: cr.spec(a, k)})
+				case 6:
+					cr.do(op{h: cur, code: "SS", a: b, k: k, v: int64(r.Intn(3)), dump: cr.spec(b, k)})
+				}
+			}
+			if rev >= 0 {
+				cr.do(op{h: cur, code: "RV", v: int64(rev), dump: "F"})
+			}
+			switch r.Pick(2, 2, 1) {
+			case 0:
+				cr.do(op{h: cur, code: "FI", v: int64(r.Pick(1, 3)), dump: cr.spec(a, -1)})
+			case 1:
+				cr.do(op{h: cur, code: "IR", v: int64(r.Pick(1, 3)), dump: cr.spec(a, -1)})
+			}
+		}
+		cur = cr.reopenTip(cur, r.Chance(3, 4), r.Pick(5, 2, 2, 1, 1))
+	}
+	cr.o.Count("family.snapshot-contract-lifecycle")
+	return cur
+}
+
+// famCopyCaches: a Copy taken between two transactions of a block carries the block's pending snapshot
+// data (snapAccounts/snapStorage); the copy and the original then diverge on the same contract and both
+// commit: neither diff layer may contain the other's writes.
+func (cr *caseRun) famCopyCaches(cur int) int {
+	r, e := cr.r, cr.e
+	a := e.ua[r.Intn(3)]
+	k := e.uk[r.Intn(3)]
+	k2 := e.uk[(indexOf(e.uk, k)+1+r.Intn(2))%3]
+	l := cr.lin[cur]
+	cr.do(op{h: cur, code: "SS", a: a, k: k, v: int64(1 + r.Intn(3)), dump: cr.spec(a, k)})
+	if r.Bool() {
+		cr.do(op{h: cur, code: "AB", a: a, v: int64(1 + r.Intn(3)), dump: cr.spec(a, -1)})
+	}
+	cr.do(op{h: cur, code: "IR", v: int64(r.Pick(1, 2)), dump: cr.spec(a, k)})
+	nh := cr.nextH
+	cr.nextH++
+	cr.lin[nh] = l.clone()
+	cr.do(op{h: cur, code: "DU", dump: "F"})
+	cr.do(op{h: cur, code: "CP", v: int64(nh), dump: "N"})
+	cr.do(op{h: nh, code: "DU", dump: "F"})
+	if l.ok {
+		if cr.last[cur] != cr.last[nh] {
+			cr.o.Fail(cr.step, "copy-differs", fmt.Sprintf("original [%s] copy [%s]", cr.last[cur], cr.last[nh]))
+		}
+		cr.o.Count("oracle.copy-equal-checked")
+	}
+	first, second := cur, nh
+	if r.Bool() {
+		first, second = nh, cur
+	}
+	// the two diverge
+	switch r.Intn(3) {
+	case 0:
+		cr.do(op{h: first, code: "SS", a: a, k: k2, v: int64(1 + r.Intn(3)), dump: cr.spec(a, k2)})
+	case 1:
+		cr.do(op{h: first, code: "SU", a: a, dump: cr.spec(a, k)})
+	case 2:
+		cr.do(op{h: first, code: "SS", a: a, k: k, v: 0, dump: cr.spec(a, k)})
+	}
+	if r.Bool() {
+		cr.do(op{h: first, code: "IR", v: int64(r.Pick(1, 2)), dump: cr.spec(a, k)})
+	}
+	if r.Bool() {
+		cr.do(op{h: second, code: "SS", a: a, k: k2, v: int64(r.Intn(3)), dump: cr.spec(a, k2)})
+		if r.Bool() {
+			cr.do(op{h: second, code: "IR", v: int64(r.Pick(1, 2)), dump: cr.spec(a, k)})
+		}
+	}
+	t1 := cr.reopenTip(second, r.Chance(3, 4), 0)
+	cr.do(op{h: first, code: "DU", dump: "F"})
+	t2 := cr.reopenTip(first, r.Chance(3, 4), 0)
+	cr.do(op{h: t1, code: "DU", dump: "F"})
+	cr.o.Count("family.copy-with-snapshot-caches")
+	if r.Bool() {
+		return t1
+	}
+	return t2
+}
+
+// famStaleLayer: two StateDBs are opened on the same layer; one of them extends the chain and the layer is
+// flattened away underneath the other (Cap), which must keep reading correctly (stale layer -> tries) and
+// commit a correct block on top.
+func (cr *caseRun) famStaleLayer(cur int) int {
+	r, e := cr.r, cr.e
+	a := e.ua[r.Intn(3)]
+	k := e.uk[r.Intn(3)]
+	// first everything into the disk layer, so that the shared layer below is the ONLY diff layer (it is then
+	// flattened as the bottom-most one and marked stale), or the disk layer itself
+	cr.do(op{h: cur, code: "NO", a: a, v: int64(1 + r.Intn(3)), dump: cr.spec(a, -1)})
+	cur = cr.reopenTip(cur, r.Bool(), 1)
+	onDisk := r.Chance(1, 3)
+	lab := -1
+	if !onDisk {
+		cr.do(op{h: cur, code: "SS", a: a, k: k, v: int64(1 + r.Intn(3)), dump: cr.spec(a, k)})
+		cr.do(op{h: cur, code: "AB", a: a, v: int64(1 + r.Intn(3)), dump: cr.spec(a, -1)})
+	}
+	res := cr.commit(cur, r.Bool(), "F", 0)
+	if n, _ := fmt.Sscanf(res, "r%d", &lab); n != 1 {
+		return cur
+	}
+	var hs [2]int
+	for i := range hs {
+		nh := cr.nextH
+		cr.nextH++
+		cr.lin[nh] = &lineage{ok: true, base: e.byLab[lab], clean: true, snapDump: map[int]string{}}
+		cr.do(op{h: cur, code: "NW", a: nh, v: int64(lab), dump: "N"})
+		if e.hs[nh] == nil {
+			return cur
+		}
+		hs[i] = nh
+	}
+	k2 := e.uk[(indexOf(e.uk, k)+1)%3]
+	cr.do(op{h: hs[0], code: "SS", a: a, k: k2, v: int64(1 + r.Intn(3)), dump: cr.spec(a, k2)})
+	cr.do(op{h: hs[0], code: "SS", a: a, k: k, v: int64(r.Intn(3)), dump: cr.spec(a, k)})
+	if r.Bool() {
+		cr.do(op{h: hs[0], code: "SU", a: a, dump: cr.spec(a, k)})
+	}
+	tip := cr.reopenTip(hs[0], true, 1+r.Intn(2)) // Cap(root, 0) or Cap(root, 1): the shared layer is flattened / replaced
+	// the other StateDB still holds the old layer object
+	cr.do(op{h: hs[1], code: "DU", dump: "F"})
+	cr.do(op{h: hs[1], code: "SS", a: a, k: k, v: int64(r.Intn(3)), dump: "F"})
+	cr.do(op{h: hs[1], code: "AB", a: e.ua[r.Intn(3)], v: int64(1 + r.Intn(3)), dump: "F"})
+	other := cr.reopenTip(hs[1], r.Bool(), 0)
+	cr.do(op{h: other, code: "DU", dump: "F"})
+	cr.o.Count("family.stale-layer-under-open-state")
+	if r.Bool() {
+		return other
+	}
+	return tip
+}
+
+// famFlattenAliasing (KNOWN FINDING, inherited from go-ethereum): diffLayer.flatten hands the child's inner
+// storage map to the accumulator by reference and marks only the parent stale; when the next layer is
+// merged into the same accumulator it writes into the map the original child object still owns. A StateDB
+// that is still attached to that child then reads the NEXT block's slot value. Exhibited here on purpose
+// (everywhere else the generator does not Cap while an open StateDB sits on such a layer); the snapshot
+// database is abandoned afterwards, so this family runs last.
+func (cr *caseRun) famFlattenAliasing(cur int) {
+	r, e := cr.r, cr.e
+	if cr.snapBroken || cr.e2.branched || cr.e2.attach[cur] != cr.e2.chainTip {
+		return
+	}
+	cr.aliasing = true
+	defer func() { cr.aliasing, cr.snapBroken = false, true }()
+	ai := r.Intn(3)
+	a, b := e.ua[ai], e.ua[(ai+1)%3]
+	ki := r.Intn(3)
+	k, k2 := e.uk[ki], e.uk[(ki+1)%3]
+	// b1: everything so far into the disk layer; b2: the contract is destructed (its destruct marker makes every
+	// later bloom probe for its slots hit); b3: re-created with slot k2; two StateDBs on b3; b4 writes slot k;
+	// Cap flattens b2..b4 in one go
+	cr.do(op{h: cur, code: "NO", a: b, v: 7, dump: "F"})
+	cur = cr.reopenTip(cur, false, 1)
+	if len(cr.e2.chain) != 0 {
+		return
+	}
+	cr.do(op{h: cur, code: "NO", a: a, v: 1, dump: "F"})
+	cr.do(op{h: cur, code: "SU", a: a, dump: "F"})
+	cr.do(op{h: cur, code: "NO", a: b, v: 8, dump: "F"})
+	cur = cr.reopenTip(cur, true, 0)
+	cr.do(op{h: cur, code: "NO", a: a, v: 1, dump: "F"})
+	cr.do(op{h: cur, code: "SS", a: a, k: k2, v: int64(1 + r.Intn(3)), dump: "F"})
+	res := cr.commit(cur, true, "F", 0)
+	var lab int
+	if n, _ := fmt.Sscanf(res, "r%d", &lab); n != 1 {
+		return
+	}
+	var hs [2]int
+	for i := range hs {
+		nh := cr.nextH
+		cr.nextH++
+		cr.lin[nh] = &lineage{ok: true, base: e.byLab[lab], clean: true, snapDump: map[int]string{}}
+		cr.do(op{h: cur, code: "NW", a: nh, v: int64(lab), dump: "N"})
+		if e.hs[nh] == nil {
+			return
+		}
+		hs[i] = nh
+	}
+	cr.do(op{h: hs[0], code: "SS", a: a, k: k, v: int64(1 + r.Intn(3)), dump: "F"})
+	cr.reopenTip(hs[0], true, 1) // Cap(root, 0)
+	cr.o.Count("family.flatten-aliasing-known-finding")
+	cr.do(op{h: hs[1], code: "DU", dump: "F"}) // reads slot k of the contract: 0 at its root
+}
+
+// famDeepChain: more than 128 diff layers on one chain, so that Commit's own Cap(root, 128) flattens the
+// oldest blocks into the disk layer while a later block's self-destruct + re-creation still sits in a diff layer.
+func (cr *caseRun) famDeepChain(cur int) int {
+	r, e := cr.r, cr.e
+	if cr.snapBroken || cr.e2.branched || cr.e2.attach[cur] != cr.e2.chainTip {
+		return cur
+	}
+	a := e.ua[r.Intn(3)]
+	b := e.ua[(indexOf(e.ua, a)+1)%3]
+	k := e.uk[r.Intn(3)]
+	k2 := e.uk[(indexOf(e.uk, k)+1)%3]
+	// start from a chain without diff layers (no open StateDB can then sit on a layer that Commit's own Cap merges)
+	cr.do(op{h: cur, code: "NO", a: b, v: 9, dump: "F"})
+	cur = cr.reopenTip(cur, false, 1)
+	if cr.snapBroken || cr.e2.branched || len(cr.e2.chain) != 0 || cr.e2.attach[cur] != cr.e2.chainTip {
+		return cur
+	}
+	cr.do(op{h: cur, code: "SS", a: a, k: k, v: int64(1 + r.Intn(3)), dump: "F"})
+	cr.do(op{h: cur, code: "AB", a: a, v: int64(1 + r.Intn(5)), dump: "F"})
+	cur = cr.reopenTip(cur, false, 0)
+	at := 1 + r.Intn(4) // block (after the first) that destructs and re-creates the contract
+	total := 129 + r.Intn(5)
+	for blk := 1; blk < total; blk++ {
+		if blk == at {
+			cr.do(op{h: cur, code: "SU", a: a, dump: "F"})
+			if r.Bool() {
+				cr.do(op{h: cur, code: "FI", v: 1, dump: "F"})
+			}
+			switch r.Intn(3) {
+			case 0:
+				cr.do(op{h: cur, code: "AB", a: a, v: int64(1 + r.Intn(5)), dump: "F"})
+			case 1:
+				cr.do(op{h: cur, code: "CA", a: a, dump: "F"})
+				cr.do(op{h: cur, code: "NO", a: a, v: 1, dump: "F"})
+			case 2:
+				cr.do(op{h: cur, code: "SS", a: a, k: k2, v: int64(1 + r.Intn(3)), dump: "F"})
+			}
+		}
+		// a strictly increasing nonce keeps every block's root distinct
+		cr.do(op{h: cur, code: "NO", a: b, v: int64(10 + blk), dump: "S.-.-"})
+		res := cr.commit(cur, true, "S.-.-", 0)
+		var lab int
+		if n, _ := fmt.Sscanf(res, "r%d", &lab); n != 1 {
+			return cur
+		}
+		nh := cr.nextH
+		cr.nextH++
+		cr.lin[nh] = &lineage{ok: true, base: e.byLab[lab], clean: true, snapDump: map[int]string{}}
+		cr.do(op{h: cur, code: "NW", a: nh, v: int64(lab), dump: "N"})
+		if e.hs[nh] == nil {
+			return cur
+		}
+		cur = nh
+		if blk >= 126 || blk <= at+1 {
+			cr.do(op{h: cur, code: "DU", dump: "F"})
+		}
+	}
+	if !cr.snapBroken {
+		cr.layerReads(cr.e2.lastRoot, 6)
+		cr.verifyLayers(cr.e2.lastRoot)
+	}
+	cr.do(op{h: cur, code: "SS", a: a, k: k, v: int64(1 + r.Intn(3)), dump: "F"})
+	cr.o.Count("family.deep-chain-128-layers")
+	// every further Commit on this chain would run Commit's own Cap(root, 128) again, whose bookkeeping (children keyed
+	// by root) needs pairwise distinct roots -- the random phase does not guarantee that: the snapshot database stops here
+	cr.snapBroken = true
+	return cur
+}
+
 func (cr *caseRun) generate() {
 	r, e := cr.r, cr.e
 	ua, uk := e.ua, e.uk
 	cur := 0
 	live := []int{0}
+	// the known flatten-aliasing finding is exhibited in a few cases, first thing (the snapshot database is abandoned afterwards)
+	if r.Chance(1, 50) || os.Getenv("C08FAM") == "alias" {
+		cr.famFlattenAliasing(0)
+	}
 	// prelude: populate, Commit(false) so that empty accounts persist, re-open
 	if r.Chance(3, 4) {
 		np := 2 + r.Intn(6)
@@ -855,6 +1529,45 @@ func (cr *caseRun) generate() {
 			cr.do(op{h: cur, code: "IR", v: 1, dump: "F"})
 			cr.o.Count("family.ripemd-reverted-touch")
 		}
+	}
+	// further directed families for the snapshot layers (each returns the handle to continue on)
+	addLive := func(h int) {
+		for _, x := range live {
+			if x == h {
+				return
+			}
+		}
+		live = append(live, h)
+	}
+	fam := r.Pick(22, 4, 2, 2)
+	deep := r.Chance(1, 250)
+	switch os.Getenv("C08FAM") { // development aid: force one family in every case
+	case "lifecycle":
+		fam = 1
+	case "copy":
+		fam = 2
+	case "stale":
+		fam = 3
+	case "deep":
+		deep = true
+	}
+	switch fam {
+	case 1:
+		cur = cr.famLifecycle(cur)
+		addLive(cur)
+	case 2:
+		cur = cr.famCopyCaches(cur)
+		addLive(cur)
+	case 3:
+		cur = cr.famStaleLayer(cur)
+		addLive(cur)
+	}
+	if deep {
+		cur = cr.famDeepChain(cur)
+		addLive(cur)
+	}
+	if len(live) > 4 {
+		live = live[len(live)-4:]
 	}
 	nops := 10 + r.Intn(60)
 	if *out.Tier == "thorough" && r.Chance(1, 10) {
@@ -944,7 +1657,7 @@ func (cr *caseRun) generate() {
 			cr.do(op{h: h, code: "IR", v: int64(r.Pick(1, 2)), dump: cr.spec(a, k)})
 		case 20:
 			if r.Bool() {
-				cr.do(op{h: h, code: "CM", v: int64(r.Pick(1, 2)), dump: cr.spec(a, k), capd: r.Pick(2, 2, 1)})
+				cr.commit(h, r.Pick(1, 2) == 1, cr.spec(a, k), r.Pick(4, 3, 2, 1, 1))
 			} else {
 				cr.commitAndReopen(h, r.Chance(2, 3))
 				if len(live) < 4 && r.Bool() {
